@@ -31,7 +31,7 @@ def build_case(r, name, meta, tup, ff, md, sp, cosmo, n=6, override=True, delta=
         ks = [k for k, v in d.items() if isinstance(v, (int, float)) and not isinstance(v, bool) and k not in ("z_hi", "max_z")]
         for k in r.sample(ks, min(len(ks), r.randint(1, 4))):
             params[k] = float(d[k]) * r.uniform(0.9, 1.1) if d[k] != 0 else r.uniform(-0.05, 0.05)
-    if "A" in cls._defaults and name not in ("Tinker08",) and r.random() < 0.25 and "isnone:p.A" in free_vars(t):
+    if "A" in cls._defaults and name not in ("Tinker08",) and (r.random() < 0.25 or getattr(build_case, "force_none", False)) and "isnone:p.A" in free_vars(t):
         params["A"] = None          # a meaningful None: the amplitude that normalises the mass fraction
     with LocalsTracer("fitting_functions") as tr:
         obj = cls(nu2=nu2, m=m, z=z, n_eff=neff, mass_definition=mdef, cosmo=cosmo, delta_c=dc, **params)
@@ -120,13 +120,21 @@ def run(ctx):
         warnings.simplefilter("ignore")
         np.seterr(all="ignore")
         for name, meta in sorted(J["fits"].items()):
-            for _ in range(reps):
+            for rep_ in range(reps):
                 build_case.vary_definition = name in ("Tinker08", "Tinker10", "Behroozi", "Watson")
+                build_case.force_none = rep_ == 0          # the meaningful None (automatic amplitude) at least once per fit that has it
                 try:
                     obj, env, calls, desc, env_for = build_case(r, name, meta, tup, ff, md, sp, Planck15)
                 except Exception as e:
                     continue   # e.g. Tinker10 parameter overrides that make the constructor raise: outside the fit's domain
                 got = np.asarray(obj.fsigma, float)
+                # "class defaults overridden by user-supplied values": the instance's parameters are the defaults with exactly the supplied
+                # entries replaced (a supplied None included: for the SMT family it is the request for the normalising amplitude)
+                want_p = dict(type(obj)._defaults); want_p.update(desc.get("params", {}))
+                bad_p = [k_ for k_ in want_p if k_ in desc.get("params", {}) and not (obj.params.get(k_, "<missing>") is want_p[k_] or obj.params.get(k_, "<missing>") == want_p[k_])]
+                if bad_p and not any(v["key"] == f"{name}/override-not-applied" for v in out["violations"]):
+                    out["violations"].append({"key": f"{name}/override-not-applied", "what": f"{name}: user-supplied model parameter {bad_p[0]}={desc['params'][bad_p[0]]!r} is not what the instance uses (params[{bad_p[0]!r}] = {obj.params.get(bad_p[0])!r})",
+                                              "replay": {"kind": "c06", "fit": name, "overrides": {k_: repr(v_) for k_, v_ in desc["params"].items()}}})
                 tr_ = desc.get("delta_halo_traced")
                 if tr_ is not None and not np.isclose(tr_, desc["delta_halo"], rtol=1e-12):
                     key_ = f"{name}/overdensity-seen-by-fit"
@@ -207,6 +215,34 @@ def run(ctx):
         A, T = getattr(ff, a), getattr(ff, tname)
         if A._defaults != T._defaults or A.fsigma is not T.fsigma or A.cutmask is not T.cutmask:
             out["violations"].append({"key": f"alias/{a}", "what": f"alias class {a} is no longer identical to {tname}", "replay": {"kind": "c06-alias", "alias": a}})
+        # ... in every class-level attribute and class-level query too (requirements flags, simulation definition, the mass definition the
+        # fit was measured with), and as instances (mass definitions seen, parameters, outputs)
+        def desc_(x):
+            return None if x is None else (type(x).__name__, sorted((k_, repr(v_)) for k_, v_ in getattr(x, "params", {}).items()))
+        diffs = []
+        for nm in sorted(set(dir(T)) | set(dir(A))):
+            if nm.startswith("__") or nm in ("_plugins",):
+                continue
+            va, vt = getattr(A, nm, "<missing>"), getattr(T, nm, "<missing>")
+            if callable(va) or callable(vt) or isinstance(va, property) or isinstance(vt, property):
+                continue
+            same = (va is vt) or (repr(va) == repr(vt))
+            if not same:
+                diffs.append(f"{nm}: {va!r} vs {vt!r}")
+        try:
+            if desc_(A.get_measured_mdef()) != desc_(T.get_measured_mdef()):
+                diffs.append(f"get_measured_mdef(): {desc_(A.get_measured_mdef())} vs {desc_(T.get_measured_mdef())}")
+            kw_ = dict(nu2=np.array([0.3, 1.0, 4.0]), m=np.array([1e11, 1e13, 1e15]), z=0.5, cosmo=Planck15, delta_c=1.686, n_eff=np.array([-2.0, -1.5, -1.0]))
+            ia, it = A(**kw_), T(**kw_)
+            for attr in ("mass_definition", "measured_mass_definition"):
+                if desc_(getattr(ia, attr, None)) != desc_(getattr(it, attr, None)):
+                    diffs.append(f"instance.{attr}: {desc_(getattr(ia, attr, None))} vs {desc_(getattr(it, attr, None))}")
+            if ia.params != it.params or not np.array_equal(ia.fsigma, it.fsigma):
+                diffs.append("instance params / fsigma differ")
+        except Exception as e:
+            diffs.append(f"alias comparison raised {type(e).__name__}: {e}")
+        if diffs and not any(x["key"] == f"alias/{a}" for x in out["violations"]):
+            out["violations"].append({"key": f"alias/{a}", "what": f"alias class {a} is not identical to {tname}: " + "; ".join(diffs[:4]), "replay": {"kind": "c06-alias", "alias": a, "differences": diffs[:8]}})
     # continuity across tabulated overdensities (numerical clause [N])
     ncont = 0
     with warnings.catch_warnings():
